@@ -723,34 +723,38 @@ func (c *Compiler) getFieldMap(fields []*StructFieldCode) map[string][]*StructFi
 	fieldMap := map[string][]*StructFieldCode{}
 	for _, field := range fields {
 		if field.isAnonymous {
-			for k, v := range c.getAnonymousFieldMap(field) {
+			for k, v := range c.getAnonymousFieldMap(field, 1) {
 				fieldMap[k] = append(fieldMap[k], v...)
 			}
 			continue
 		}
+		field.depth = 0
 		fieldMap[field.key] = append(fieldMap[field.key], field)
 	}
 	return fieldMap
 }
 
-func (c *Compiler) getAnonymousFieldMap(field *StructFieldCode) map[string][]*StructFieldCode {
+// getAnonymousFieldMap collects the fields promoted from an embedded struct; depth is the
+// embedding depth of that struct's own fields below the struct being compiled.
+func (c *Compiler) getAnonymousFieldMap(field *StructFieldCode, depth int) map[string][]*StructFieldCode {
 	fieldMap := map[string][]*StructFieldCode{}
 	structCode := field.getAnonymousStruct()
 	if structCode == nil || structCode.isRecursive {
+		field.depth = depth - 1
 		fieldMap[field.key] = append(fieldMap[field.key], field)
 		return fieldMap
 	}
-	for k, v := range c.getFieldMapFromAnonymousParent(structCode.fields) {
+	for k, v := range c.getFieldMapFromAnonymousParent(structCode.fields, depth) {
 		fieldMap[k] = append(fieldMap[k], v...)
 	}
 	return fieldMap
 }
 
-func (c *Compiler) getFieldMapFromAnonymousParent(fields []*StructFieldCode) map[string][]*StructFieldCode {
+func (c *Compiler) getFieldMapFromAnonymousParent(fields []*StructFieldCode, depth int) map[string][]*StructFieldCode {
 	fieldMap := map[string][]*StructFieldCode{}
 	for _, field := range fields {
 		if field.isAnonymous {
-			for k, v := range c.getAnonymousFieldMap(field) {
+			for k, v := range c.getAnonymousFieldMap(field, depth+1) {
 				// Do not handle tagged key when embedding more than once
 				for _, vv := range v {
 					vv.isTaggedKey = false
@@ -759,6 +763,7 @@ func (c *Compiler) getFieldMapFromAnonymousParent(fields []*StructFieldCode) map
 			}
 			continue
 		}
+		field.depth = depth
 		fieldMap[field.key] = append(fieldMap[field.key], field)
 	}
 	return fieldMap
@@ -766,7 +771,25 @@ func (c *Compiler) getFieldMapFromAnonymousParent(fields []*StructFieldCode) map
 
 func (c *Compiler) getDuplicatedFieldMap(fieldMap map[string][]*StructFieldCode) map[*StructFieldCode]struct{} {
 	duplicatedFieldMap := map[*StructFieldCode]struct{}{}
-	for _, fields := range fieldMap {
+	for _, allFields := range fieldMap {
+		if len(allFields) == 1 {
+			continue
+		}
+		// the fields at the shallowest embedding depth hide every deeper one of the same name
+		minDepth := allFields[0].depth
+		for _, field := range allFields {
+			if field.depth < minDepth {
+				minDepth = field.depth
+			}
+		}
+		fields := make([]*StructFieldCode, 0, len(allFields))
+		for _, field := range allFields {
+			if field.depth > minDepth {
+				duplicatedFieldMap[field] = struct{}{}
+				continue
+			}
+			fields = append(fields, field)
+		}
 		if len(fields) == 1 {
 			continue
 		}
